@@ -176,7 +176,7 @@ Definition publish_core (size indirect old_idx tok ring_val aidx_now : N) (n_in 
   (ring_val =? tok) && (aidx_now =? w16 (old_idx + 1)) && (bad =? 0) && (lenN es =? n) && (tok <? size)
   && (if is_ind =? 1
       then (indirect =? 1) && (1 <? n) && (hflags =? F_INDIRECT) && (hlen =? 16 * n) && table_linked 0 es
-      else ((indirect =? 0) || (n =? 1)) && linked size es
+      else linked size es
            && match es with (i, _, _, _, _) :: _ => i =? tok | [] => false end)
   && elems_match es exp (N.to_nat n_in)
   && nodupb (idxs ++ others).
@@ -231,11 +231,10 @@ Theorem mon_publish_sound size indirect old_idx tok ring_val aidx_now n_in n_out
   /\ (forall k i a l f nx ea el, nth_error es k = Some (i, a, l, f, nx) -> nth_error exp k = Some (ea, el) ->
         a = ea /\ l = el
         /\ (N.of_nat k < n_in -> has_flag f F_WRITE = false) /\ (n_in <= N.of_nat k -> has_flag f F_WRITE = true))
-  (* a direct chain: only on a queue without indirect descriptors, or for a single buffer; starts at the token; every
+  (* a direct chain (on any queue): starts at the token; every
      index inside the table, no INDIRECT inside, NEXT set and `next` = index of the following entry on all but the last *)
   /\ (is_ind <> 1 ->
-        (indirect = 0 \/ n = 1)
-        /\ (exists a l f nx, nth_error es 0 = Some (tok, a, l, f, nx))
+        (exists a l f nx, nth_error es 0 = Some (tok, a, l, f, nx))
         /\ forall k i a l f nx, nth_error es k = Some (i, a, l, f, nx) ->
              i < size /\ has_flag f F_INDIRECT = false
              /\ match nth_error es (S k) with
@@ -272,8 +271,7 @@ Proof.
     split; [exact A|]. split; [exact B|]. split; intros; [apply C|apply D]; lia. }
   split.
   { intros Hi. destruct (N.eqb_spec is_ind 1) as [|_]; [contradiction|].
-    apply andb_prop in Hshape. destruct Hshape as [Hs Hhd]. apply andb_prop in Hs. destruct Hs as [Hq Hl].
-    split. { apply orb_prop in Hq. destruct Hq as [Hq|Hq]; apply N.eqb_eq in Hq; auto. }
+    apply andb_prop in Hshape. destruct Hshape as [Hl Hhd].
     split. { destruct es as [|[[[[i a] l] f] nx] t]; [discriminate Hhd|]. apply N.eqb_eq in Hhd. subst i.
              now exists a, l, f, nx. }
     exact (linked_sound size es Hl). }
@@ -876,7 +874,6 @@ Proof.
     + rewrite Haidx, Hai. apply N.eqb_refl.
     + now apply N.eqb_eq.
     + now apply N.ltb_lt.
-    + apply orb_true_iff. destruct Hq as [Hq|Hq]; [left; now rewrite Hq|right; now apply N.eqb_eq].
     + exact Hlk.
     + exact Hfirst.
     + unfold lenN at 1. rewrite Nat2N.id. rewrite Hcb in Hrel. now apply elems_match_tag.
@@ -912,12 +909,13 @@ Qed.
 (* ------------------------------------------------------------------------------------------------ *)
 (* two observations made while proving the above (neither is a defect with respect to the model; see the report) *)
 
-(* (1) monitor 150 is STRICTER than the property text in one clause: it wants an indirect table whenever the queue has
-   indirect descriptors and more than one buffer is submitted (that is what `add` does: add_publishes, "indirect iff"),
-   so a well-formed DIRECT two-descriptor chain published on an indirect queue gets the verdict false although the
-   property only says "indirect tables ... used only when enabled for the queue" *)
+(* (1) monitor 150 accepts a well-formed DIRECT chain on any queue: the property says "indirect tables ... used only when
+   enabled for the queue", not that they must be used whenever they could be.  (As first written the monitor was STRICTER
+   than the property text here: it wanted an indirect table whenever the queue has indirect descriptors and more than one
+   buffer is submitted - what `add` does, add_publishes "indirect iff" - and gave the verdict false to the first line below.
+   That clause was removed from the monitor; the model's own choice is still compared by the kind-110 correspondence.) *)
 Example mon_publish_direct_chain_on_indirect_queue :
-  mon_publish [4; 1; 0; 0; 0; 1; 1; 1; 100; 8; 200; 16; 0; 0; 0; 0; 0; 2; 0; 100; 8; 1; 1; 1; 200; 16; 2; 2] = false
+  mon_publish [4; 1; 0; 0; 0; 1; 1; 1; 100; 8; 200; 16; 0; 0; 0; 0; 0; 2; 0; 100; 8; 1; 1; 1; 200; 16; 2; 2] = true
   /\ mon_publish [4; 0; 0; 0; 0; 1; 1; 1; 100; 8; 200; 16; 0; 0; 0; 0; 0; 2; 0; 100; 8; 1; 1; 1; 200; 16; 2; 2] = true.
 Proof. split; reflexivity. Qed.
 
